@@ -30,7 +30,9 @@ Inductive cform :=
 | FUnknown.
 
 (* a Session{...} composite literal, as far as the context is concerned *)
-Record slit := mk_slit { l_ctx : cform; l_newdb : bool; l_init : bool }.
+(* l_own: the literal sets PrepareStmt or SkipHooks, which (like Context) makes Session give the derived
+   handle a Statement of its own: tx.Statement = tx.Statement.clone() *)
+Record slit := mk_slit { l_ctx : cform; l_newdb : bool; l_init : bool; l_own : bool }.
 
 Record handle := mk_h { h_ctx : ctx; h_clone : Z }.
 
@@ -63,7 +65,8 @@ Definition eval_form (f : cform) (h : handle) (p : ctx) : option ctx :=
 (* db.Session(&Session{...}) *)
 Definition session (cp : copies) (l : slit) (p : ctx) (h : handle) : handle :=
   let c := match eval_form (l_ctx l) h p with
-           | None => h_ctx h                       (* tx.Statement = db.Statement *)
+           | None => if l_own l then (if cp_clone cp then h_ctx h else ctx_nil)   (* a clone of its own *)
+                     else h_ctx h                  (* tx.Statement = db.Statement *)
            | Some c' => if cp_session cp then c' else (if cp_clone cp then h_ctx h else ctx_nil)
            end in
   let h1 := mk_h c (if l_newdb l then 1 else 2) in
@@ -103,7 +106,7 @@ Section Run.
         let h' := session cp l ctx_unknown h in
         (fix go (ns : list node) : list call := match ns with [] => [] | x :: r => run x h' ++ go r end) body
     | NWith c body =>
-        let h' := session cp (mk_slit FParam false false) c h in
+        let h' := session cp (mk_slit FParam false false false) c h in
         (fix go (ns : list node) : list call := match ns with [] => [] | x :: r => run x h' ++ go r end) body
     | NBegin l f body =>
         let h' := session cp l ctx_unknown (get_instance cp h) in
